@@ -175,6 +175,19 @@ func (ai *allocImpl) indexProof(ex *Explorer, st *State, idx ssa.Value, wantSet 
 			if f, ok := st.live["b:"+m[1]+"#1"]; ok && f.Val && inSection(f) {
 				return true, "index is NextClear's result on its ok edge in this critical section"
 			}
+			// the ok edge was taken earlier in this section and nothing has touched the bitmap since
+			// (the live fact is dropped when a field the call read by value - a search cursor - is rewritten)
+			if f, ok := st.hist["b:"+m[1]+"#1"]; ok && f.Val && inSection(f) {
+				touched := false
+				for l := range st.seen {
+					if strings.HasPrefix(l, "set:") || strings.HasPrefix(l, "clear:") || strings.HasPrefix(l, "mut:") {
+						touched = true
+					}
+				}
+				if !touched {
+					return true, "index is NextClear's result on its ok edge in this critical section (no bitmap update since)"
+				}
+			}
 			return false, "NextClear's ok result is not established (or not in this critical section)"
 		}
 	}
@@ -432,7 +445,14 @@ func ruleAllocate(c *Ctx, prefix string, ai *allocImpl, want map[string]bool) {
 			}
 			r.n++
 			if k, ok := call.Call.Args[1].(*ssa.Const); !ok || constStr(k) != "0" {
-				r.bad = "NextClear does not start searching at bit 0: free blocks below the start are never found"
+				if okc, why := cursorStart(c, ex, st, ai, call.Call.Args[1]); okc {
+					r.why = why
+				} else {
+					r.bad = "NextClear does not start searching at bit 0: free blocks below the start are never found"
+					if why != "" {
+						r.bad += " (the start is a field, but it is not a verified cursor: " + why + ")"
+					}
+				}
 			}
 			if hu := hintUsable(st); hu != 0 {
 				r.bad = fmt.Sprintf("first-free search reached although the hint may name a free block of the pool (hint-usable=%s): the hint is not tried first / not honoured", tri(hu))
@@ -488,7 +508,7 @@ func ruleAllocate(c *Ctx, prefix string, ai *allocImpl, want map[string]bool) {
 			}
 			if isNoAddr {
 				nFull++
-				ncok, _ := histFact(st, "bool", regexp.MustCompile(`NextClear(@(?:[\w$]+·)?t\d+)?\(\$0\.`+ai.Bitmap+`,0\)#1$`))
+				ncok, _ := histFact(st, "bool", regexp.MustCompile(`NextClear(@(?:[\w$]+·)?t\d+)?\(\$0\.`+ai.Bitmap+`,(0|\$0\.\w+)\)#1$`))
 				if ncok != 0 && len(fullBad) < 4 {
 					fullBad = append(fullBad, fmt.Sprintf("ErrNoAddrAvail returned at %s on a path where the first-free search did not fail (ok=%s)", c.P.InstrPos(in), tri(ncok)))
 				}
@@ -798,11 +818,27 @@ func ruleRangeRestart(c *Ctx, rule string) {
 	c.R.Functions[shortFn(fn)] = true
 	ex := NewExplorer(c.P, c.Pure, fn)
 	var alloc *ssa.Call
+	allocInMapRange := false
 	for _, f := range withInlinedHelpers(fn, 2) {
 		for _, b := range f.Blocks {
 			for _, in := range b.Instrs {
 				if call, ok := in.(*ssa.Call); ok && call.Call.IsInvoke() && call.Call.Method.Name() == "Allocate" {
-					alloc = call
+					// the re-marking call is the one made while ranging over the loaded records (a map);
+					// other allocations of the setup (reservations, exclusions) are not restorations
+					inMapRange := false
+					for h, body := range InfoOf(f).LoopOf {
+						if !body[b.Index] {
+							continue
+						}
+						for _, hin := range f.Blocks[h].Instrs {
+							if nx, ok := hin.(*ssa.Next); ok && !nx.IsString {
+								inMapRange = true
+							}
+						}
+					}
+					if alloc == nil || (inMapRange && !allocInMapRange) {
+						alloc, allocInMapRange = call, inMapRange
+					}
 				}
 			}
 		}
@@ -1027,6 +1063,10 @@ func ruleConvPair(c *Ctx, prefix string) {
 				}
 			}
 			s := stripAt(e.Canon[0])
+			// a defensive copy of the conversion's result is the same conversion
+			if cm := regexp.MustCompile(`^append\((?:nil|new\[:0?\]),(.*)\)$`).FindStringSubmatch(s); cm != nil && i == 1 {
+				s = cm[1]
+			}
 			var m []string
 			if i == 0 {
 				m = reOff.FindStringSubmatch(s)
@@ -1348,4 +1388,215 @@ func isByteSlice(t types.Type) bool {
 	}
 	b, ok := s.Elem().Underlying().(*types.Basic)
 	return ok && b.Kind() == types.Uint8
+}
+
+// ---- search cursor ------------------------------------------------------------
+//
+// An allocator may keep a field c ("first free", "search from") and start its
+// first-free search at c instead of 0. That is the same search exactly when
+// the invariant  I: every bit below c is set  holds whenever the mutex is free.
+// cursorInvariant decides I inductively from the shape of every write to c
+// and every Clear in the allocator's methods:
+//   - c is written only in methods of the allocator, with the mutex held;
+//   - a store c = v is one of
+//       lower:    the path established v < c            (lowering c always keeps I)
+//       found:    v = r,   r = NextClear(c) on its ok edge    (all of [c, r) was found set)
+//       past:     v = r+1, r as above, and bit r is Set on the path before the section ends
+//       full:     v = Len(), on the failed edge of NextClear(c)   (everything from c on is set)
+//       on-it:    v = x+1, the path established x == c, and bit x is Set on the path
+//   - after a Clear(i), the path either established ¬(i < c) or stores c = i.
+// The zero value (c = 0) satisfies I trivially.
+
+type cursorVerdict struct {
+	ok  bool
+	why string
+	n   int
+}
+
+var cursorMemo = map[string]*cursorVerdict{}
+
+func cursorInvariant(c *Ctx, ai *allocImpl, field string) *cursorVerdict {
+	mk := ai.Name + "." + field
+	if v, ok := cursorMemo[mk]; ok {
+		return v
+	}
+	res := &cursorVerdict{ok: true}
+	cursorMemo[mk] = res
+	fail := func(format string, args ...interface{}) {
+		if res.ok {
+			res.ok, res.why = false, fmt.Sprintf(format, args...)
+		}
+	}
+	var fvar *types.Var
+	st := ai.T.Underlying().(*types.Struct)
+	for i := 0; i < st.NumFields(); i++ {
+		if st.Field(i).Name() == field {
+			fvar = st.Field(i)
+		}
+	}
+	if fvar == nil {
+		fail("no field %s", field)
+		return res
+	}
+	if b, ok := fvar.Type().Underlying().(*types.Basic); !ok || b.Info()&types.IsUnsigned == 0 {
+		fail("the search start %s is not an unsigned integer field", field)
+		return res
+	}
+	inMethod := map[*ssa.Function]bool{}
+	for _, m := range ai.Methods {
+		for _, f := range inlineFuncs(m) {
+			inMethod[f] = true
+		}
+	}
+	for _, s := range findStores(c.P, fvar, nil) {
+		if !inMethod[s.Parent()] {
+			if k, ok := s.Val.(*ssa.Const); ok && constStr(k) == "0" {
+				continue
+			}
+			fail("%s is written at %s outside the allocator's methods", field, c.P.InstrPos(s))
+		}
+	}
+	cs := "$0." + field
+	bm := "$0." + ai.Bitmap
+	ncRe := regexp.MustCompile(`^\(\*` + reQ(pkgBitset) + `\.BitSet\)\.NextClear\(` + reQ(bm) + `,` + reQ(cs) + `\)#0$`)
+	ncOK := "b:(*" + pkgBitset + ".BitSet).NextClear(" + bm + "," + cs + ")#1"
+	lenC := "(*" + pkgBitset + ".BitSet).Len(" + bm + ")"
+	for _, m := range ai.Methods {
+		if inlinedEverywhere(c, m) {
+			continue
+		}
+		ex := NewExplorer(c.P, c.Pure, m)
+		ex.Hooks.Label = func(st *State, in ssa.Instruction) string {
+			op, call := ai.bitmapOp(ex, st, in)
+			switch op {
+			case "Set":
+				return "cset:" + ex.Canon(st, call.Call.Args[1]).S
+			case "Clear":
+				return "cclear:" + ex.Canon(st, call.Call.Args[1]).S
+			}
+			return ""
+		}
+		ltTrue := func(st *State, x, y string) int { // 1: x<y established, 0: ¬(x<y) established, -1: unknown
+			for _, f := range st.live {
+				if f.Kind == "lt" && f.X == x && f.Y == y {
+					return b2i(f.Val)
+				}
+			}
+			return -1
+		}
+		eqTrue := func(st *State, x, y string) bool {
+			for _, f := range st.live {
+				if f.Kind == "eqv" && f.Val && ((f.X == x && f.Y == y) || (f.X == y && f.Y == x)) {
+					return true
+				}
+			}
+			return false
+		}
+		ex.Hooks.Instr = func(st *State, in ssa.Instruction) {
+			sto, ok := in.(*ssa.Store)
+			if !ok {
+				return
+			}
+			fa, ok := sto.Addr.(*ssa.FieldAddr)
+			if !ok || fieldOf(fa.X.Type(), fa.Field) != fvar {
+				return
+			}
+			res.n++
+			st.seen["curstore"] = true
+			if ex.Canon(st, fa.X).S != "$0" {
+				fail("%s of another allocator is written at %s", field, c.P.InstrPos(in))
+				return
+			}
+			if !st.Holds("$0."+ai.Mutex, 'W') {
+				fail("%s is written at %s without the mutex", field, c.P.InstrPos(in))
+				return
+			}
+			v := ex.Canon(st, sto.Val).S
+			okEdge := func() int {
+				if f, ok := st.hist[ncOK]; ok {
+					return b2i(f.Val)
+				}
+				return -1
+			}
+			switch {
+			case ltTrue(st, v, cs) == 1:
+				st.seen["cur:="+v] = true // lower
+			case ncRe.MatchString(v) && okEdge() == 1:
+				st.seen["cur:="+v] = true // found
+			case strings.HasPrefix(v, "(") && strings.HasSuffix(v, " + 1)") && ncRe.MatchString(v[1:len(v)-5]) && okEdge() == 1:
+				st.seen["needset:"+v[1:len(v)-5]] = true // past
+			case v == lenC && okEdge() == 0:
+				// full
+			case strings.HasPrefix(v, "(") && strings.HasSuffix(v, " + 1)") && (eqTrue(st, v[1:len(v)-5], cs) || v[1:len(v)-5] == cs):
+				x := v[1 : len(v)-5]
+				if x == cs {
+					// c++ : some index equal to c must be set on the path
+					found := false
+					for l := range st.seen {
+						if strings.HasPrefix(l, "cset:") && eqTrue(st, strings.TrimPrefix(l, "cset:"), cs) {
+							found = true
+						}
+					}
+					for _, f := range st.live {
+						if f.Kind == "eqv" && f.Val && (f.X == cs || f.Y == cs) {
+							o := f.X
+							if o == cs {
+								o = f.Y
+							}
+							st.seen["needset:"+o] = true
+							found = true
+						}
+					}
+					if !found {
+						fail("%s is advanced at %s although no index equal to it is known to be set", field, c.P.InstrPos(in))
+					}
+				} else {
+					st.seen["needset:"+x] = true // on-it
+				}
+			default:
+				fail("%s = %s at %s: the new search start is not shown to have only set bits below it (none of: lowered, NextClear's result, its successor, Len() when full, successor of an index equal to it)", field, shortName(v), c.P.InstrPos(in))
+			}
+		}
+		ex.Hooks.Exit = func(st *State, in ssa.Instruction) {
+			if _, ok := in.(*ssa.Return); !ok {
+				return
+			}
+			for l := range st.seen {
+				if strings.HasPrefix(l, "needset:") {
+					x := strings.TrimPrefix(l, "needset:")
+					if !st.seen["cset:"+x] {
+						fail("%s was moved past index %s, which is not Set on the path ending at %s", field, shortName(x), c.P.InstrPos(in))
+					}
+				}
+				if strings.HasPrefix(l, "cclear:") {
+					x := strings.TrimPrefix(l, "cclear:")
+					if st.seen["cur:="+x] || ltTrue(st, x, cs) == 0 {
+						continue
+					}
+					if ncRe.MatchString(x) && !st.seen["curstore"] {
+						continue // the index NextClear(c) returned is ≥ c, and c has not moved on this path
+					}
+					fail("bit %s is cleared but %s is not lowered to it on the path ending at %s (nor is it known to be ≥ %s)", shortName(x), field, c.P.InstrPos(in), field)
+				}
+			}
+		}
+		ex.Run()
+		if ex.Exceeded {
+			fail("state budget exceeded in %s", shortFn(m))
+		}
+	}
+	return res
+}
+
+// cursorStart: v is a load of an allocator field used as a verified search cursor.
+func cursorStart(c *Ctx, ex *Explorer, st *State, ai *allocImpl, v ssa.Value) (bool, string) {
+	s := ex.Canon(st, v).S
+	if !strings.HasPrefix(s, "$0.") || strings.ContainsAny(s[3:], ".[(") {
+		return false, ""
+	}
+	cv := cursorInvariant(c, ai, s[3:])
+	if cv.ok {
+		return true, fmt.Sprintf("search starts at the cursor %s; every write of it (%d) keeps all bits below it set, and every Clear lowers it", s[3:], cv.n)
+	}
+	return false, cv.why
 }
